@@ -3,12 +3,19 @@
 R1  contiguous == vectored: for every type that has both `to_continuous_buffer` and `to_buffers`, the guarded
     sequence of sources appended to the output is identical for every valuation of the guards (same fields,
     same order, same conditions) - necessary and sufficient for byte equality of the two serialisations.
+R3  length accounting of the builders: for every accepting path of every `XBuilder::build`, the argument of
+    `VariableByteInteger::from_u32` stored as Remaining Length equals, as a linear form over position-free size atoms,
+    the sum of the sizes of the sources the packet's serialiser emits after the length field when applied to the value
+    that path built (decided under the path's own linear facts; one abstract iteration stands for list entries, whose
+    sum must be `e.size()` over the same list).
+R4  every property-length field emitted in front of a property list is `from_u32(size(that list))`.
 R2  size wiring: every packet's `size()` is 1 + remaining_length.size() + remaining_length.to_u32(), and the
     GenericPacket / GenericStorePacket dispatchers forward each variant to the same-named method of its payload.
 """
 import re
 
 import conn
+import lenacct
 import serial
 
 GP = "mqtt::packet::enum_packet::GenericPacket"
@@ -50,6 +57,39 @@ def check(run, F, tier):
                          site="%s:%s" % (m["to_buffers"]["file"], m["to_buffers"]["line"]))
         else:
             r1.ok(key, {"valuations": len(da), "max_items": max(len(x) for s in da.values() for x in s)})
+
+    # ------------------------------------------------------------------ R3 / R4
+    r3 = run.rule("C02-R3", "build(): the Remaining Length formula counts exactly the sources the serialiser emits (every optional-field combination)", floor=29)
+    r4 = run.rule("C02-R4", "build(): each property-length field is the size of the property list serialised after it", floor=13)
+    if not lenacct.id_buffers_ok(F):
+        r3.violation("IsPacketId", "an IsPacketId implementor's Buffer is not [u8; size_of::<Self>()]: size_of::<PacketIdType>() and the identifier bytes differ in length")
+    acct = lenacct.Acct(F)
+    for ver, kind, bfn in lenacct.builders(F):
+        key = "%s::%s" % (ver, kind)
+        try:
+            rec = acct.run(ver, kind, bfn)
+        except Exception as e:  # noqa
+            r3.violation(key + "|explore", "cannot analyse %s: %r" % (bfn, e))
+            continue
+        fobj = F.fns[bfn]
+        if rec["diff"]:
+            d = rec["diff"][0]
+            msg = ("build() counts [%s] which is not serialised, and does not count [%s] which is" % (d["only_in_build"], d["only_serialised"])) \
+                if "only_in_build" in d else ("build() stores %s but the serialiser emits %s" % (d["build"], d["serialised"]))
+            r3.violation(key, "%s::%s builder: %s: %s" % (ver, kind, d["why"], msg),
+                         d, site="%s:%s" % (fobj["file"], fobj["line"]))
+        elif rec["ok"]:
+            r3.ok(key, {"paths": rec["ok"], "undecided_paths": len(rec["undecided"])})
+        else:
+            r3.violation(key + "|undecided", "%s::%s builder: no accepting path could be related to the serialiser (%s)" % (ver, kind, sorted(set(rec["undecided"]))[:3]))
+        if rec["undecided"]:
+            r3.note("%s: %d path(s) not decided: %s" % (key, len(rec["undecided"]), sorted(set(rec["undecided"]))[:2]))
+        if rec["prop_diff"]:
+            d = rec["prop_diff"][0]
+            r4.violation(key, "%s::%s builder: a property-length field holds %s but the list serialised after it has %s" % (ver, kind, d["length"], d["list"]),
+                         d, site="%s:%s" % (fobj["file"], fobj["line"]))
+        elif rec["prop_ok"]:
+            r4.ok(key, {"pairs": rec["prop_ok"]})
 
     # ------------------------------------------------------------------ R2
     r2 = run.rule("C02-R2", "size() = 1 + remaining_length.size() + remaining_length.to_u32(); enum dispatch forwards to the payload", floor=29)
